@@ -163,7 +163,10 @@ class C19(Check):
             err_name = type(ctx.error).__name__ if ctx.error is not None else None
             died_step = probes.STATE["step"] if ctx.error is not None else None
             snaps = {sn["k"]: sn for sn in probes.of_kind("snap")}
-            if first_gap:
+            if err_name not in (None, "MissingEphemerisError", "LinAlgError") and (first_gap is None or died_step < first_gap[0] or died_step > first_gap[0]):
+                viol.append({"clause": "importing-run-aborted", "key": err_name,
+                             "detail": f"the importing run aborted in step {died_step} with {err_name}: {str(ctx.error)[:200]} (first importer gap: {first_gap}); mutations {muts}"})
+            elif first_gap:
                 cnt["importer_gap_hit"] = cnt.get("importer_gap_hit", 0) + 1
                 k, missing = first_gap
                 if err_name != "MissingEphemerisError":
